@@ -545,6 +545,7 @@ def d_offset(F, R):
 
 
 def check_c01(F, R):
+    t_logic_templates(F, R)
     p_req(F, R)
     t_convex(F, R)
     p_bigm(F, R)
@@ -558,3 +559,242 @@ def check_c02(F, R):
     t_convex(F, R)
     d_offset(F, R)
     c04.d_activity_offset(F, R)
+
+
+# ---- T-LOGIC-TEMPLATES ----------------------------------------------------------------------
+# The rows emitted for logic forms are closed templates over 0/1 operands.  The lowering functions
+# are evaluated from their HIR by the table interpreter, with the linearizer context replaced by a
+# recorder (emit_constraint / declare_variable / reify capture what is emitted) and Boolean leaf
+# operands; the captured rows are then checked on the whole Boolean cube:
+#   assertion forms:  exists aux in {0,1}^m with all rows true  <=>  f(operands) == asserted value
+#   reified forms:    all rows true  <=>  z == f(operands)
+# This is exhaustive evaluation of an extracted finite template, not execution of rooc.
+
+import itertools as _it
+from fractions import Fraction as _Fr
+
+
+class _Aff:
+    def __init__(self, coeffs=None, const=0.0):
+        self.c = dict(coeffs or {})
+        self.k = const
+
+    def __repr__(self):
+        return "Aff(%r,%r)" % (self.c, self.k)
+
+
+def _logic_models(I, F, rec):
+    import c10
+    EXPP = c10.EXP
+    L = "transformers::linearizer::"
+    LC = L + "LinearizationContext::"
+    OK = "std::result::Result::Ok"
+    SOME = "std::option::Option::Some"
+    NONE = "std::option::Option::None"
+    from interp import Var as V, Rope as Rp, ListV as LV, Unknown as Un
+
+    def name_of(v):
+        x = v.args[0]
+        return x.text() if isinstance(x, Rp) else str(x)
+
+    def bav(exp):
+        if not isinstance(exp, V):
+            return None
+        n = exp.path.rsplit("::", 1)[-1]
+        if n == "Number" and isinstance(exp.args[0], (int, float)) and exp.args[0] in (0.0, 1.0):
+            return _Aff({}, float(exp.args[0]))
+        if n == "Variable":
+            return _Aff({name_of(exp): 1.0}, 0.0)
+        if n == "Not":
+            a = bav(exp.args[0])
+            return None if a is None else _Aff({k: -v for k, v in a.c.items()}, 1.0 - a.k)
+        if n == "UnOp" and exp.args[0].path.endswith("UnOp::Not"):
+            a = bav(exp.args[1])
+            return None if a is None else _Aff({k: -v for k, v in a.c.items()}, 1.0 - a.k)
+        return None
+
+    def to_exp(a):
+        e = V(EXPP + "::Number", [a.k])
+        for nm, co in a.c.items():
+            term = V(EXPP + "::BinOp", [V("math::operators::BinOp::Mul"), V(EXPP + "::Number", [co]), V(EXPP + "::Variable", [Rp([nm])])])
+            e = V(EXPP + "::BinOp", [V("math::operators::BinOp::Add"), e, term])
+        return e
+
+    def m_bav(I_, args):
+        a = bav(args[0])
+        return V(NONE) if a is None else V(SOME, [a])
+
+    def m_mul(I_, args):
+        a, k = args
+        a.c = {n: v * k for n, v in a.c.items()}
+        a.k *= k
+        return ()
+
+    def m_addrhs(I_, args):
+        args[0].k += args[1]
+        return ()
+
+    def m_lbo(I_, args):
+        out = []
+        for e in args[0].items:
+            a = bav(e)
+            if a is None:
+                return Un("non-leaf operand in a template evaluation")
+            out.append(to_exp(a))
+        return V(OK, [LV(out)])
+
+    def m_emit(I_, args):
+        rec["rows"].append((args[1], args[2], args[3]))
+        return V(OK, [()])
+
+    def m_decl(I_, args):
+        nm = args[1].text() if isinstance(args[1], Rp) else str(args[1])
+        rec["aux"].append(nm)
+        return V(OK, [()])
+
+    def m_reify(I_, args):
+        nm = args[0].text() if isinstance(args[0], Rp) else str(args[0])
+        z = V(EXPP + "::Variable", [Rp([nm])])
+        for t in args[1].items:
+            rec["rows"].append((z, t[0], t[1]))
+        rec["aux"].append(nm)
+        rec["reified"] = nm
+        return V(OK, [_Aff({nm: 1.0}, 0.0)])
+
+    I.models[L + "binary_affine_value"] = m_bav
+    I.models[LC + "mul_by"] = m_mul
+    I.models[LC + "add_rhs"] = m_addrhs
+    I.models[L + "context_to_exp"] = lambda I_, a: to_exp(a[0])
+    I.models[L + "is_binary_context"] = lambda I_, a: True
+    I.models[LC + "from_var"] = lambda I_, a: _Aff({(a[0].text() if isinstance(a[0], Rp) else str(a[0])): float(a[1])}, 0.0)
+    I.models[LC + "from_rhs"] = lambda I_, a: _Aff({}, float(a[0]))
+    I.models[L + "Linearizer::emit_constraint"] = m_emit
+    I.models[L + "Linearizer::declare_variable"] = m_decl
+    I.models[L + "reify_logic_variable"] = m_reify
+
+
+def _logic_forms():
+    """(tree, operand names): logic expressions of depth <= 2 over Boolean leaves a, b, c"""
+    import c10
+    a, b, c = ("var", "a"), ("var", "b"), ("var", "c")
+    leaves = [a, b, c]
+    d1 = [("nary", "And", [a, b]), ("nary", "And", [a, b, c]), ("nary", "Or", [a, b]), ("nary", "Or", [a, b, c]),
+          ("logic", "Implies", a, b), ("logic", "Iff", a, b), ("logic", "Xor", a, b), ("not", a)]
+    out = list(d1)
+    for x in d1:
+        for y in (c, ("not", c)):
+            out.append(("nary", "And", [x, y]))
+            out.append(("nary", "Or", [x, y]))
+            out.append(("logic", "Implies", x, y))
+            out.append(("logic", "Implies", y, x))
+            out.append(("logic", "Iff", x, y))
+            out.append(("logic", "Xor", x, y))
+        out.append(("not", x))
+    out.append(("nary", "Or", [("nary", "And", [a, b]), ("nary", "And", [b, c])]))
+    out.append(("nary", "And", [("nary", "Or", [a, b]), ("nary", "Or", [b, c])]))
+    out.append(("logic", "Implies", ("nary", "And", [a, b]), ("nary", "Or", [b, c])))
+    return c10.dedup(out)
+
+
+def _row_holds(c10, row, env):
+    lhs, cmp, rhs = row
+    l = c10.evaluate(c10.from_val(lhs), env)
+    r = c10.evaluate(c10.from_val(rhs), env)
+    k = cmp.path.rsplit("::", 1)[-1]
+    return {"LessOrEqual": l <= r, "GreaterOrEqual": l >= r, "Equal": l == r, "Less": l < r, "Greater": l > r}[k]
+
+
+def t_logic_templates(F, R):
+    import c10
+    from interp import Interp, Var as V, Rope as Rp, ListV as LV, is_unknown
+    I = Interp(F, max_depth=200)
+    rec = {"rows": [], "aux": []}
+    _logic_models(I, F, rec)
+    L = "transformers::linearizer::"
+    for p in (L + "lower_logic_assertion", L + "try_lower_affine_logic_assertion", L + "directional_logic_witness"):
+        R.fn(p)
+
+    def fresh_ctx():
+        return V(L + "Linearizer", fields={k: 0 for k in ("and_count", "or_count", "xor_count", "implies_count", "iff_count", "abs_count", "min_count", "max_count", "logic_witness_count")} | {"domain": V("DOMAIN")})
+
+    forms = _logic_forms()
+    n_ok = n = 0
+    for t in forms:
+        ops = sorted(set(c10._vars(t)))
+        for must in (True, False):
+            rec["rows"], rec["aux"] = [], []
+            rec.pop("reified", None)
+            r = I.call_fn(L + "lower_logic_assertion", [c10.to_val(t), must, Rp(["row"]), fresh_ctx()])
+            key = "assert-%s:%s" % ("true" if must else "false", c10.show(t))
+            n += 1
+            if is_unknown(r) or not (isinstance(r, V) and r.path.endswith("Result::Ok")):
+                R.ob("T-LOGIC-TEMPLATES", key, False, "packages/rooc/src/transformers/linearizer.rs", "assertion lowering not evaluable on this form: %r" % (r,))
+                continue
+            bad = None
+            try:
+                for sig in _it.product((0, 1), repeat=len(ops)):
+                    env = {o: _Fr(v) for o, v in zip(ops, sig)}
+                    want = (c10.evaluate(t, env) != 0) == must
+                    feasible = False
+                    for aux in _it.product((0, 1), repeat=len(rec["aux"])):
+                        e2 = dict(env)
+                        e2.update({a_: _Fr(v) for a_, v in zip(rec["aux"], aux)})
+                        if all(_row_holds(c10, row, e2) for row in rec["rows"]):
+                            feasible = True
+                            break
+                    if feasible != want:
+                        bad = "at %s the source form is %s but the emitted rows are %s" % (dict(zip(ops, sig)), "satisfied" if want else "violated", "satisfiable" if feasible else "unsatisfiable")
+                        break
+            except Exception as ex:  # rows mention something the evaluator does not know
+                bad = "rows not evaluable: %s" % ex
+            if bad is None:
+                n_ok += 1
+            R.ob("T-LOGIC-TEMPLATES", key, bad is None, "packages/rooc/src/transformers/linearizer.rs",
+                 "asserting `%s` %s emits %d row(s) with %d auxiliar(ies): %s" % (c10.show(t), "true" if must else "false", len(rec["rows"]), len(rec["aux"]), bad or "equivalent on the whole Boolean cube"))
+            if len(R.samples) < 8:
+                R.sample({"form": c10.show(t), "asserted": must, "rows": ["%s %s %s" % (c10.show(c10.from_val(l)), cmp.path.rsplit("::", 1)[-1], c10.show(c10.from_val(rr))) for l, cmp, rr in rec["rows"]]})
+    # reified forms (the value of a logic expression used in arithmetic)
+    a, b, c = ("var", "a"), ("var", "b"), ("var", "c")
+    reif = [("nary", "And", [a]), ("nary", "And", [a, b]), ("nary", "And", [a, b, c]), ("nary", "Or", [a]), ("nary", "Or", [a, b]), ("nary", "Or", [a, b, c]),
+            ("logic", "Implies", a, b), ("logic", "Iff", a, b), ("logic", "Xor", a, b),
+            ("nary", "And", [("not", a), b]), ("logic", "Implies", ("not", a), b), ("logic", "Xor", a, ("not", b))]
+    for t in reif:
+        rec["rows"], rec["aux"] = [], []
+        rec.pop("reified", None)
+        r = I.call_fn(EXP_LIN, [c10.to_val(t), fresh_ctx(), V(VR + "::Exact")])
+        key = "reify:" + c10.show(t)
+        z = rec.get("reified")
+        if z is None:
+            R.ob("T-LOGIC-TEMPLATES", key, False, "packages/rooc/src/transformers/linearizer.rs", "reified lowering not evaluable: %r" % (r,))
+            continue
+        ops = sorted(set(c10._vars(t)))
+        bad = None
+        for sig in _it.product((0, 1), repeat=len(ops)):
+            for zv in (0, 1):
+                env = {o: _Fr(v) for o, v in zip(ops, sig)}
+                env[z] = _Fr(zv)
+                holds = all(_row_holds(c10, row, env) for row in rec["rows"])
+                want = (c10.evaluate(t, {o: _Fr(v) for o, v in zip(ops, sig)}) != 0) == (zv == 1)
+                if holds != want:
+                    bad = "at %s, z=%d the rows %s but z %s the value" % (dict(zip(ops, sig)), zv, "hold" if holds else "fail", "equals" if want else "differs from")
+        R.ob("T-LOGIC-TEMPLATES", key, bad is None, "packages/rooc/src/transformers/linearizer.rs", "reified `%s` emits %d rows: %s" % (c10.show(t), len(rec["rows"]), bad or "rows hold iff z = value, on the whole cube"))
+    R.count("T-LOGIC-TEMPLATES.forms", len(forms))
+    # the stubbed helper is checked structurally: `not e` is 1 - e
+    f = F.fn(L + "binary_affine_value")
+    if f is not None:
+        R.fn(f["path"])
+        nots = 0
+        for m in walk(f["body"]):
+            if m.get("k") == "Match":
+                for arm in m["arms"]:
+                    p = sexp(arm["pat"])
+                    if p.startswith("Exp::Not") or p.endswith("UnOp::Not"):
+                        t = sexp(arm["body"])
+                        if "mul_by(-1.0)" in t and "add_rhs(1.0)" in t:
+                            nots += 1
+        R.ob("T-LOGIC-TEMPLATES", "binary_affine_value:not-is-one-minus", nots == 2, F.loc(f), "`not e` must be valued 1 - e in both spellings (found %d)" % nots)
+    g = F.fn(L + "reify_logic_variable")
+    if g is not None:
+        R.fn(g["path"])
+        t = sexp(g["body"])
+        R.ob("T-LOGIC-TEMPLATES", "reify:rows-and-domain", "Constraint::new(Exp::Variable(var_name.clone()), comparison, rhs" in t.replace("model::", "").replace("parser::model_transformer::", "") and "VariableType::Boolean" in t, F.loc(g), "a reified value z is tied by rows `z <cmp> rhs` and declared Boolean")
